@@ -26,6 +26,7 @@ type Variant struct {
 	Candidate string
 	AlsoDry   bool
 	Svn       uint32
+	Genoa     bool // SEV-SNP product line (false: Milan)
 }
 
 var img2M = fx.Image(2*1024*1024, 5)
@@ -54,8 +55,18 @@ func Variants(quick bool) []Variant {
 								if snap {
 									v.Svn = 3
 								}
-								v.Name = fmt.Sprintf("snp=%v tdx=%v vmsas=%d shapes=%v snapshot=%v overwrite=%v candidate=%q meas+dry=%v", t.snp, t.tdx, vm, sh, snap, ow, cand, also)
-								vs = append(vs, v)
+								// the product decides where the VMSA pages are measured: alternate it over the sweep
+								// (thorough: both products for every SNP variant)
+								prods := []bool{len(vs)%2 == 1}
+								if !quick && t.snp {
+									prods = []bool{false, true}
+								}
+								for _, genoa := range prods {
+									v := v
+									v.Genoa = genoa && t.snp
+									v.Name = fmt.Sprintf("snp=%v tdx=%v vmsas=%d shapes=%v snapshot=%v overwrite=%v candidate=%q meas+dry=%v genoa=%v", t.snp, t.tdx, vm, sh, snap, ow, cand, also, v.Genoa)
+									vs = append(vs, v)
+								}
 							}
 						}
 					}
@@ -76,7 +87,11 @@ func (v Variant) run(cfg Cfg, d Decider) *Obs {
 	ectx := &endorse.Context{Image: img2M, ClSpec: 777, Timestamp: fx.DevNow, VCS: w, CommitRetries: cfg.Retries, OutDir: outDir,
 		DryRun: cfg.DryRun, MeasurementOnly: cfg.MeasOnly, CandidateName: v.Candidate}
 	if v.Snp {
-		ectx.SevSnp = &sev.SnpEndorsementRequest{Product: sevsnp.SevProduct_SEV_PRODUCT_MILAN, LaunchVmsas: v.Vmsas, ImageID: "11111111-2222-3333-4444-555555555555", Svn: v.Svn}
+		product := sevsnp.SevProduct_SEV_PRODUCT_MILAN
+		if v.Genoa {
+			product = sevsnp.SevProduct_SEV_PRODUCT_GENOA
+		}
+		ectx.SevSnp = &sev.SnpEndorsementRequest{Product: product, LaunchVmsas: v.Vmsas, ImageID: "11111111-2222-3333-4444-555555555555", Svn: v.Svn}
 	}
 	if v.Tdx {
 		ectx.Tdx = &tdx.EndorsementRequest{MachineShapes: v.Shapes, IncludeEarlyAccept: v.EarlyAcc, Svn: v.Svn}
